@@ -285,7 +285,28 @@ def run(ctx, rep):
                     if tm and tm[0] == "b":
                         field = tm[1]
         total = sum(amts) + (eqs[0] if len(eqs) == 1 else 0)
-        rep.check("C11.isrc", "ISRC text = 2 + 3 + 2 + 5 characters = the 12-byte field of the block", sorted(amts) == [2, 2, 3] and eqs == [5] and field == 96 and total * 8 == field, loc_of(ib[0]),
+        whole = None
+        if not amts:
+            # the other spelling: the dash-less code is tested as a whole (len == 12) and then class by class on fixed ranges
+            for x in ib:
+                for bl in x.blocks:
+                    for st_ in bl["s"]:
+                        rv_ = st_["rv"]
+                        if rv_["r"] == "bin" and rv_["op"] == "Eq" and op_int(rv_["b"]) is not None and op_int(rv_["b"]) > 5:
+                            sl_ = backward_slice(x, rv_["a"])
+                            if any(re.search(r"::len$", callee_name(c)) for c in sl_["calls"]) or "PtrMetadata" in sl_["ops"]:
+                                whole = op_int(rv_["b"])
+                for bi_, bl in enumerate(x.blocks):
+                    for st_ in bl["s"]:
+                        rv_ = st_["rv"]
+                        if rv_["r"] == "agg" and rv_.get("adt") == "metadata::cuesheet::ISRCString" and rv_["ops"]:
+                            names_ = [strip_generics(callee_name(c)).rsplit("::", 1)[-1] for c in backward_slice(x, rv_["ops"][0])["calls"]]
+                            stored.append("stripped" if ("filter" in names_ and ("collect" in names_ or "from_iter" in names_)) or "into_owned" in names_ else "other")
+        if whole is not None:
+            rep.check("C11.isrc", "ISRC text = 2 + 3 + 2 + 5 characters = the 12-byte field of the block", field == 96 and whole * 8 == field, loc_of(ib[0]), "whole-length test %s, field %s bits" % (whole, field),
+                      "ISRCString::from_str accepts codes of %s characters, the block field holds %s bits" % (whole, field))
+        else:
+          rep.check("C11.isrc", "ISRC text = 2 + 3 + 2 + 5 characters = the 12-byte field of the block", sorted(amts) == [2, 2, 3] and eqs == [5] and field == 96 and total * 8 == field, loc_of(ib[0]),
                   "prefix lengths %s, designation length %s, field %s bits" % (amts, eqs, field),
                   "ISRCString::from_str accepts codes whose length differs from the 12-byte field (prefix lengths %s, designation check %s): longer codes are truncated on write, shorter ones are refused by the reader" % (amts, eqs))
         rep.check("C11.isrc", "the stored ISRC is the dash-stripped text that was validated", stored == ["stripped"], loc_of(ib[0]), str(stored),
